@@ -587,3 +587,37 @@ Definition sched_matches (v : variant) (auto_app : bool) (evs : list (list event
   | Some (s, sn, _) => beq_list beq_snap sn snaps && beq_obs (observe s) final
   | None => false
   end.
+
+(* ------------------------------------------- the peer and callers of C05 *)
+(* Executable form of the hypotheses of C05 on the next event (see env_ok in
+   Proofs/ConnC05.v, which this implies on reachable states): Submit callers
+   draw positive, pairwise distinct sequence numbers the peer has not used;
+   the peer sends a PDU carrying the sequence number of a request at most
+   once and only after the request's frame reached the transport. *)
+Definition item_seqs (l : list item) : list Z :=
+  flat_map (fun i => match i with IPdu p => [snd p] | _ => [] end) l.
+Definition usedb (s : state) (q : Z) : bool :=
+  existsb (fun c => submit_like (c_kind (callers s c)) && (c_seq (callers s c) =? q)%Z) (started s).
+Definition answeredb (s : state) (q : Z) : bool := existsb (Z.eqb q) (item_seqs (injected s)).
+Definition env_okb (s : state) (e : event) : bool :=
+  match e with
+  | Start c k g q f =>
+    negb (submit_like k) || ((0 <? q)%Z && negb (usedb s q) && negb (answeredb s q))
+  | PeerFrame (IPdu p) =>
+    negb (usedb s (snd p)) ||
+    (negb (answeredb s (snd p)) &&
+     forallb (fun c => negb (submit_like (c_kind (callers s c)) && (c_seq (callers s c) =? snd p)%Z)
+                       || c_wrote (callers s c)) (started s))
+  | _ => true
+  end.
+Fixpoint erunb (v : variant) (s : state) (t : list event) : option state :=
+  match t with
+  | [] => Some s
+  | e :: r => if env_okb s e then match step v s e with Some s' => erunb v s' r | None => None end else None
+  end.
+(* a forced schedule stays within the hypotheses of C05 *)
+Definition sched_env_ok (v : variant) (auto_app : bool) (gs : list (list event)) : bool :=
+  match sched v auto_app gs with
+  | Some (_, _, tr) => match erunb v init tr with Some _ => true | None => false end
+  | None => false
+  end.
